@@ -870,6 +870,6 @@ def _emit_fn(unit, repo, rel, scope, name, opts, flags, contract, directives, va
         "props": [p for p in opts.get("props", "").split(",") if p],
         "kf": opts.get("kf"),
         "novac": "novac" in flags,
-        "vac_copy": "vac_copy" in flags,
+        "vac_copy": "vac_copy" in flags, "module": opts.get("mod"),
         "calls": sorted({toks[k].text for k in range(ob, cb) if toks[k].kind == "id" and toks[k + 1].text == "("}),
     })
